@@ -16,6 +16,7 @@ import (
 	"verifmc/dilscope"
 	"verifmc/drv"
 	"verifmc/refdil"
+	"verifmc/seeds"
 )
 
 type keys struct {
@@ -260,6 +261,163 @@ func main() {
 				if mi == 3 {
 					c.Sample(map[string]any{"base": b, "mutation": fmt.Sprint(m), "hint_section": drv.FullHex(s[len(s)-83:])})
 				}
+			}
+		}})
+	// (1c) degenerate public key t1 = 0: accepted triples with ARBITRARY hint vectors can be built without a secret key;
+	// hints are aimed at coefficients whose low part is at a boundary (0, +-1, +-gamma2 ...), where UseHint's branches meet
+	ck.Domains = append(ck.Domains, &drv.Domain{Name: "degenerate-pk-hints", Size: 600, Chunk: 4,
+		Desc: "public key with t1 = 0 (4 rho values): triples built by the specification model from chosen z (small, or at the norm bound) and chosen hint vectors (random weight <= 75, and hints aimed at the coefficients of A z whose low bits are closest to 0 / +-gamma2): library <=> specification (the model accepts all of them by construction)",
+		Run: func(c *drv.Ctx, lo, hi int64) {
+			for i := lo; i < hi; i++ {
+				c.At(i)
+				rho := seeds.Bytes(32, fmt.Sprint("rho", i%4), c.Seed)
+				msg := []byte(fmt.Sprintf("degenerate %d", i))
+				rnd := seeds.Bytes(24000, fmt.Sprint("z", i), c.Seed)
+				var z [refdil.L]refdil.Poly
+				bound := int64(refdil.GAMMA1 - refdil.BETA - 1)
+				for a := 0; a < refdil.L; a++ {
+					for b := 0; b < 256; b++ {
+						v := int64(rnd[(a*256+b)*3])<<16 | int64(rnd[(a*256+b)*3+1])<<8 | int64(rnd[(a*256+b)*3+2])
+						v = v%(2*bound+1) - bound
+						if i%3 == 1 {
+							v = v % 1000 // small z
+						}
+						z[a][b] = refdil.Mod(v)
+					}
+				}
+				if i%5 == 0 {
+					z[int(i)%refdil.L][int(i)%256] = refdil.Mod(bound) // exactly the largest admissible value
+				}
+				if i%5 == 1 {
+					z[int(i)%refdil.L][int(i)%256] = refdil.Mod(-bound)
+				}
+				var h [refdil.K]refdil.Poly
+				az := refdil.AzForZeroT1(rho, &z)
+				weight := 0
+				if i%3 == 0 {
+					// exact aim: move z[0][0] so that coefficient (r,p) of A z has low part EXACTLY `lowTarget`, then hint it
+					A := refdil.ExpandACoeff(rho)
+					r, p := int(i/3)%refdil.K, int(i*37)%256
+					lowTarget := []int64{0, 1, -1, refdil.GAMMA2, -refdil.GAMMA2 + 1, refdil.GAMMA2 - 1}[int(i/3)%6]
+					a := A[r][0][p]
+					if a != 0 {
+						inv := refdil.InvMod(a)
+						for k := int64(0); k < 16; k++ {
+							want := refdil.Mod(k*2*refdil.GAMMA2 + lowTarget)
+							d := refdil.Centre((want - az[r][p]) % refdil.Q * inv)
+							nz := refdil.Centre(z[0][0]) + d
+							if nz <= bound && nz >= -bound {
+								z[0][0] = refdil.Mod(nz)
+								az = refdil.AzForZeroT1(rho, &z)
+								if _, a0 := refdil.Decompose(az[r][p]); a0 == lowTarget || (lowTarget == refdil.GAMMA2 && a0 == refdil.GAMMA2) {
+									h[r][p] = 1
+									weight++
+									c.Count(fmt.Sprintf("exact_low_part=%d_hinted", lowTarget), 1)
+								}
+								break
+							}
+						}
+					}
+				}
+				if i%2 == 0 {
+					// aimed hints: the coefficients whose low bits are closest to 0 (kind 0) or to +-gamma2 (kind 1)
+					type cand struct {
+						r, p int
+						d    int64
+					}
+					var best []cand
+					kind := (i / 2) % 2
+					for r := 0; r < refdil.K; r++ {
+						for p := 0; p < 256; p++ {
+							_, a0 := refdil.Decompose(az[r][p])
+							d := a0
+							if d < 0 {
+								d = -d
+							}
+							if kind == 1 {
+								d = refdil.GAMMA2 - d
+							}
+							best = append(best, cand{r, p, d})
+						}
+					}
+					for n := 0; n < 40; n++ { // selection of the 40 closest
+						m := n
+						for k := n + 1; k < len(best); k++ {
+							if best[k].d < best[m].d {
+								m = k
+							}
+						}
+						best[n], best[m] = best[m], best[n]
+						h[best[n].r][best[n].p] = 1
+						weight++
+						if best[n].d == 0 {
+							c.Count("hints_on_exact_boundary", 1)
+						}
+					}
+				} else {
+					for n := 0; n < int(i%76); n++ {
+						r, p := int(rnd[20000+n])%refdil.K, int(rnd[21000+n])
+						if h[r][p] == 0 && weight < refdil.OMEGA {
+							h[r][p] = 1
+							weight++
+						}
+					}
+				}
+				pk, sig, _ := refdil.ForgeForZeroT1(rho, msg, &z, &h)
+				if !refdil.Verify(pk, msg, sig) {
+					c.Fail(i, "degenerate-pk:model-rejects-its-own-construction(infrastructure)", nil)
+					continue
+				}
+				c.Nontrivial(1)
+				compare(c, i, "degenerate-pk", fmt.Sprintf("t1=0, hint weight %d, variant %d", weight, i%6), nil, pk, msg, sig, false)
+				// and with one hint moved / removed the triple must be judged the same by both
+				if weight > 0 {
+					s2 := append([]byte(nil), sig...)
+					hs := s2[len(s2)-83:]
+					hs[0] ^= 1
+					compare(c, i, "degenerate-pk-perturbed", fmt.Sprintf("t1=0, first hint index ^1, weight %d", weight), nil, pk, msg, s2, false)
+				}
+				if i == 4 {
+					c.Sample(map[string]any{"rho": drv.Hex(rho), "hint_weight": weight, "message": string(msg)})
+				}
+			}
+		}})
+	// (1d) histories: a verification must not depend on what was verified before (reused scratch, caches)
+	ck.Domains = append(ck.Domains, &drv.Domain{Name: "verify-histories", Size: 3 * 700, Chunk: 50,
+		Desc: "for every hint-section malformation of a valid signature (3 bases): verify the malformed one, then the VALID one (must be accepted), then the valid signature with all hints zeroed (library <=> specification), then the valid one under another key variable holding another key",
+		Run: func(c *drv.Ctx, lo, hi int64) {
+			for i := lo; i < hi; i++ {
+				c.At(i)
+				b := int(i / 700)
+				k := getKeys(dilscope.Seed(b%3, c.Seed))
+				msg, sig, _ := validSig(k, b)
+				ms := muts(sig)
+				mi := int(i % 700)
+				if mi >= len(ms) {
+					continue
+				}
+				s, _ := apply(sig, ms[mi])
+				if s == nil {
+					continue
+				}
+				pk := k.pk
+				libAccepts(c, i, msg, s, &pk, "history step 1 (malformed)")
+				if ok, _ := libAccepts(c, i, msg, sig, &pk, "history step 2 (valid)"); !ok {
+					c.Fail(i, "history:valid-signature-rejected-after-malformed-one", map[string]any{"malformation": fmt.Sprint(ms[mi])})
+				}
+				z := append([]byte(nil), sig...)
+				for t := len(z) - 83; t < len(z); t++ {
+					z[t] = 0
+				}
+				compare(c, i, "history-hints-zeroed", fmt.Sprintf("after %v: valid signature with the hint section zeroed", ms[mi]), k, k.ref.PK, msg, z, false)
+				// same variable, other key
+				k2 := getKeys(dilscope.Seed((b+1)%3, c.Seed))
+				msg2, sig2, _ := validSig(k2, b+10)
+				pk = k2.pk
+				if ok, _ := libAccepts(c, i, msg2, sig2, &pk, "history step 4 (other key in the same variable)"); !ok {
+					c.Fail(i, "history:valid-signature-of-second-key-rejected", map[string]any{"malformation": fmt.Sprint(ms[mi])})
+				}
+				c.Nontrivial(1)
 			}
 		}})
 	// (2) bit flips
